@@ -882,6 +882,9 @@ pub struct OpResult {
 
 /// Run one top-level operation with containment, then the quiescent-point sweep.
 pub fn step(op: &Op) -> OpResult {
+    if std::env::var_os("VH_DEBUG").is_some() {
+        eprintln!("OP {}", op);
+    }
     world::with(|w| {
         w.op_idx += 1;
         w.stats.ops += 1;
